@@ -156,7 +156,7 @@ def isTypeSwitch : Option Statement → P Bool
     if left.length = 1 && right.length = 1 && (match right.head? with | some (.TypeAssert _) => true | _ => false) then
       if op = .Define then pure true
       else if op = .Assign then elseErrorAt pos "expect := found =" "is_type_switch"
-      else throw (.panic "internal error: entered unreachable code (parser.rs:2045)")
+      else pure false
     else pure false
   | _ => pure false
 
